@@ -1,5 +1,1036 @@
 package verifsim
 
-type walConn struct{}
+import (
+	"encoding/binary"
+	"os"
+	"sort"
+	"syscall"
 
-func (c *Conn) walClose() {}
+	"bazil.org/fuse"
+)
+
+// WAL-mode half of PagerSim: a model of wal.c at the level of file operations
+// and wal-index (shared memory) stores. The wal-index hash tables are not
+// modelled; connections find frames by scanning the log up to mxFrame, which is
+// what SQLite's own recovery does. Ground truth: DESIGN.md §4.2 (strace).
+
+const (
+	walWriteLock   = 120
+	walCkptLock    = 121
+	walRecoverLock = 122
+	walRead0       = 123
+	walDMS         = 128
+
+	readMarkNotUsed = 0xffffffff
+	shmHdrSize      = 136
+	shmChunk        = 32768
+)
+
+// walHdr is the wal-index header (WalIndexHdr), native little-endian in memory.
+type walHdr struct {
+	iVersion   uint32
+	iChange    uint32
+	isInit     bool
+	bigEnd     bool
+	szPage     uint32
+	mxFrame    uint32
+	nPage      uint32
+	frameCksum [2]uint32
+	salt       [2]uint32
+}
+
+func (h *walHdr) encode() []byte {
+	b := make([]byte, 48)
+	binary.LittleEndian.PutUint32(b[0:], h.iVersion)
+	binary.LittleEndian.PutUint32(b[8:], h.iChange)
+	if h.isInit {
+		b[12] = 1
+	}
+	if h.bigEnd {
+		b[13] = 1
+	}
+	ps := h.szPage
+	if ps == 65536 {
+		ps = 1
+	}
+	binary.LittleEndian.PutUint16(b[14:], uint16(ps))
+	binary.LittleEndian.PutUint32(b[16:], h.mxFrame)
+	binary.LittleEndian.PutUint32(b[20:], h.nPage)
+	binary.LittleEndian.PutUint32(b[24:], h.frameCksum[0])
+	binary.LittleEndian.PutUint32(b[28:], h.frameCksum[1])
+	binary.LittleEndian.PutUint32(b[32:], h.salt[0])
+	binary.LittleEndian.PutUint32(b[36:], h.salt[1])
+	c0, c1 := walCksum(false, 0, 0, b[:40])
+	binary.LittleEndian.PutUint32(b[40:], c0)
+	binary.LittleEndian.PutUint32(b[44:], c1)
+	return b
+}
+
+func decodeWalHdr(b []byte) (h walHdr, ok bool) {
+	if len(b) < 48 {
+		return h, false
+	}
+	c0, c1 := walCksum(false, 0, 0, b[:40])
+	if c0 != binary.LittleEndian.Uint32(b[40:]) || c1 != binary.LittleEndian.Uint32(b[44:]) {
+		return h, false
+	}
+	h.iVersion = binary.LittleEndian.Uint32(b[0:])
+	h.iChange = binary.LittleEndian.Uint32(b[8:])
+	h.isInit = b[12] != 0
+	h.bigEnd = b[13] != 0
+	h.szPage = uint32(binary.LittleEndian.Uint16(b[14:]))
+	if h.szPage == 1 {
+		h.szPage = 65536
+	}
+	h.mxFrame = binary.LittleEndian.Uint32(b[16:])
+	h.nPage = binary.LittleEndian.Uint32(b[20:])
+	h.frameCksum[0] = binary.LittleEndian.Uint32(b[24:])
+	h.frameCksum[1] = binary.LittleEndian.Uint32(b[28:])
+	h.salt[0] = binary.LittleEndian.Uint32(b[32:])
+	h.salt[1] = binary.LittleEndian.Uint32(b[36:])
+	return h, h.isInit && h.iVersion == 3007000
+}
+
+type walConn struct {
+	shmf, walf *File
+	hdr        walHdr // snapshot taken at read-transaction start
+	readLock   int    // -1 none
+	write      bool
+	nCkpt      uint32
+	bigEnd     bool // checksum byte order this connection writes new logs with
+	minFrame   uint32
+	// frame index: pgno -> frames (ascending) for the log generation idxSalt
+	idx      map[uint32][]uint32
+	idxUpTo  uint32
+	idxHdr   walHdr
+	idxValid bool
+}
+
+func (c *Conn) frameSize() int64 { return 24 + int64(c.PageSize) }
+func (c *Conn) frameOff(f uint32) int64 {
+	return 32 + int64(f-1)*c.frameSize()
+}
+
+// shm access ------------------------------------------------------------------
+
+func (c *Conn) shmReadHdr() (walHdr, bool, syscall.Errno) {
+	b, e := c.wal.shmf.ShmLoad(0, 96)
+	if e != 0 {
+		return walHdr{}, false, e
+	}
+	h1, ok1 := decodeWalHdr(b[0:48])
+	h2, ok2 := decodeWalHdr(b[48:96])
+	if !ok1 || !ok2 || h1 != h2 {
+		return walHdr{}, false, 0
+	}
+	return h1, true, 0
+}
+
+func (c *Conn) shmWriteHdr(h walHdr) syscall.Errno {
+	b := h.encode()
+	// second copy first, then the first copy (walIndexWriteHdr)
+	if e := c.wal.shmf.ShmStore(48, b); e != 0 {
+		return e
+	}
+	return c.wal.shmf.ShmStore(0, b)
+}
+
+type ckptInfo struct {
+	nBackfill uint32
+	readMark  [5]uint32
+	attempted uint32
+}
+
+func (c *Conn) shmReadCkpt() (ckptInfo, syscall.Errno) {
+	b, e := c.wal.shmf.ShmLoad(96, 40)
+	if e != 0 {
+		return ckptInfo{}, e
+	}
+	var ci ckptInfo
+	ci.nBackfill = binary.LittleEndian.Uint32(b[0:])
+	for i := 0; i < 5; i++ {
+		ci.readMark[i] = binary.LittleEndian.Uint32(b[4+4*i:])
+	}
+	ci.attempted = binary.LittleEndian.Uint32(b[32:])
+	return ci, 0
+}
+
+func (c *Conn) shmWriteCkpt(ci ckptInfo) syscall.Errno {
+	b := make([]byte, 40)
+	binary.LittleEndian.PutUint32(b[0:], ci.nBackfill)
+	for i := 0; i < 5; i++ {
+		binary.LittleEndian.PutUint32(b[4+4*i:], ci.readMark[i])
+	}
+	binary.LittleEndian.PutUint32(b[32:], ci.attempted)
+	return c.wal.shmf.ShmStore(96, b)
+}
+
+func (c *Conn) shmLock(typ fuse.LockType, lo, n int) syscall.Errno {
+	return c.wal.shmf.Lock(typ, uint64(lo), uint64(lo+n-1))
+}
+
+// open / close ------------------------------------------------------------------
+
+// WalOpen opens the WAL and SHM files of a database that is in WAL mode, the
+// way sqlite3PagerOpenWal / unixOpenSharedMemory do.
+func (c *Conn) WalOpen() syscall.Errno {
+	if c.wal != nil {
+		return 0
+	}
+	// A WAL connection keeps SHARED on the database file for its lifetime.
+	if c.lock == 0 {
+		if e := c.LockShared(); e != 0 {
+			return e
+		}
+	}
+	w := &walConn{readLock: -1}
+	wf, e := c.k.Open(c.DB+"-wal", os.O_RDWR|os.O_CREATE, c.Owner)
+	if e != 0 {
+		return e
+	}
+	w.walf = wf
+	sf, e := c.k.Open(c.DB+"-shm", os.O_RDWR|os.O_CREATE, c.Owner)
+	if e != 0 {
+		wf.Close()
+		return e
+	}
+	w.shmf = sf
+	c.wal = w
+	c.Mode = ModeWAL
+	// DMS: query, try exclusive (first connection truncates), then shared.
+	c.wal.shmf.QueryLock(fuse.LockWrite, walDMS, walDMS)
+	if e := c.shmLock(fuse.LockWrite, walDMS, 1); e == 0 {
+		c.r.Count("wal.dms.first")
+		if e := c.wal.shmf.Truncate(3); e != 0 {
+			c.walAbort()
+			return e
+		}
+		sm := c.wal.shmf.shm()
+		sm.mem, sm.valid, sm.dirty = make([]byte, 3), true, false
+	}
+	if e := c.shmLock(fuse.LockRead, walDMS, 1); e != 0 {
+		c.walAbort()
+		return e
+	}
+	return 0
+}
+
+func (c *Conn) walAbort() {
+	if c.wal == nil {
+		return
+	}
+	c.wal.shmf.Close()
+	c.wal.walf.Close()
+	c.wal = nil
+}
+
+// walClose closes the WAL connection. If checkpointOnClose and this turns out
+// to be the last connection (EXCLUSIVE on the database file obtainable), the
+// log is checkpointed without any WAL lock and -wal/-shm are unlinked, as
+// sqlite3WalClose does.
+func (c *Conn) walClose() {
+	if c.wal == nil {
+		return
+	}
+	c.wal.shmf.ShmWriteback()
+	c.wal.shmf.Close()
+	c.wal.walf.Close()
+	c.wal = nil
+}
+
+// WalCloseLast performs the last-connection close: EXCLUSIVE on the database
+// file, backfill everything, truncate, unlink -wal and -shm.
+func (c *Conn) WalCloseLast(ref *Image) (string, syscall.Errno) {
+	if c.wal == nil {
+		return "", 0
+	}
+	if e := c.dbf.Lock(fuse.LockWrite, sharedFirst, sharedFirst+sharedSize-1); e != 0 {
+		c.walClose()
+		return "not-last", 0
+	}
+	// checkpoint with no WAL locks held (exclusive mode of walClose)
+	h, ok, e := c.shmReadHdr()
+	if e != 0 {
+		return "shm-read", e
+	}
+	if !ok {
+		// the wal-index is not initialised: sqlite3WalCheckpoint recovers it first
+		if at, e := c.walRecover(); e != 0 {
+			return at, e
+		}
+		if h, ok, e = c.shmReadHdr(); e != 0 {
+			return "shm-read", e
+		}
+	}
+	if ok && h.mxFrame > 0 {
+		if at, e := c.backfill(h, h.mxFrame, 0); e != 0 {
+			return at, e
+		}
+		if sz, e2 := c.dbf.Size(); e2 == 0 && sz > int64(h.nPage)*int64(c.PageSize) {
+			if e := c.dbf.Truncate(int64(h.nPage) * int64(c.PageSize)); e != 0 {
+				return "close-db-truncate", e
+			}
+		}
+		if e := c.dbf.Fsync(); e != 0 {
+			return "close-db-fsync", e
+		}
+	}
+	c.wal.shmf.Close()
+	c.wal.walf.Close()
+	c.wal = nil
+	c.k.Unlink(c.DB + "-wal")
+	c.k.Unlink(c.DB + "-shm")
+	c.dbf.Lock(fuse.LockRead, sharedFirst, sharedFirst+sharedSize-1)
+	return "", 0
+}
+
+// recovery ------------------------------------------------------------------------
+
+// walRecover rebuilds the wal-index header from the log (walIndexRecover):
+// WRITE exclusive, CKPT+RECOVER in one request, READ1..4 probed exclusively.
+func (c *Conn) walRecover() (string, syscall.Errno) {
+	c.r.Count("wal.recover")
+	heldWrite := c.wal.write
+	if !heldWrite {
+		if e := c.shmLock(fuse.LockWrite, walWriteLock, 1); e != 0 {
+			return "recover-write-lock", e
+		}
+	}
+	release := func() {
+		if !heldWrite {
+			c.shmLock(fuse.LockUnlock, walWriteLock, 1)
+		}
+	}
+	if e := c.shmLock(fuse.LockWrite, walCkptLock, 2); e != 0 {
+		release()
+		return "recover-ckpt-lock", e
+	}
+	for i := 1; i <= 4; i++ {
+		if e := c.shmLock(fuse.LockWrite, walRead0+i, 1); e == 0 {
+			c.shmLock(fuse.LockUnlock, walRead0+i, 1)
+		}
+	}
+	// make sure the mapping has its first chunk
+	if e := c.wal.shmf.ShmStore(shmChunk-1, []byte{0}); e != 0 {
+		c.shmLock(fuse.LockUnlock, walCkptLock, 2)
+		release()
+		return "recover-shm-extend", e
+	}
+	size, e := c.wal.walf.Size()
+	if e != 0 {
+		c.shmLock(fuse.LockUnlock, walCkptLock, 2)
+		release()
+		return "recover-wal-size", e
+	}
+	var h walHdr
+	h.iVersion, h.isInit, h.szPage = 3007000, true, c.PageSize
+	var raw []byte
+	if size > 32 {
+		raw, e = c.wal.walf.Pread(0, int(size))
+		if e != 0 {
+			c.shmLock(fuse.LockUnlock, walCkptLock, 2)
+			release()
+			return "recover-wal-read", e
+		}
+	}
+	sc := ScanWAL(raw)
+	old, _, _ := c.shmReadHdr()
+	h.iChange = old.iChange + 1
+	if sc.HeaderOK && sc.PageSize == c.PageSize {
+		h.salt = [2]uint32{sc.Salt1, sc.Salt2}
+		h.bigEnd = sc.BigEndian
+		c.wal.nCkpt = binary.BigEndian.Uint32(raw[12:])
+		c0, c1 := binary.BigEndian.Uint32(raw[24:]), binary.BigEndian.Uint32(raw[28:])
+		h.frameCksum = [2]uint32{c0, c1}
+		if sc.LastCommit > 0 {
+			fr := sc.Frames[sc.LastCommit-1]
+			h.mxFrame = uint32(sc.LastCommit)
+			h.nPage = fr.Commit
+			fo := fr.Off
+			h.frameCksum = [2]uint32{binary.BigEndian.Uint32(raw[fo+16:]), binary.BigEndian.Uint32(raw[fo+20:])}
+		}
+	}
+	if h.mxFrame == 0 {
+		// empty or unusable log: database size from the file
+		sz, _ := c.dbf.Size()
+		h.nPage = uint32(sz / int64(c.PageSize))
+	}
+	if e := c.shmWriteHdr(h); e != 0 {
+		c.shmLock(fuse.LockUnlock, walCkptLock, 2)
+		release()
+		return "recover-shm-hdr", e
+	}
+	ci := ckptInfo{}
+	ci.readMark = [5]uint32{0, readMarkNotUsed, readMarkNotUsed, readMarkNotUsed, readMarkNotUsed}
+	if h.mxFrame > 0 {
+		ci.readMark[1] = h.mxFrame
+	}
+	c.shmWriteCkpt(ci)
+	c.shmLock(fuse.LockUnlock, walCkptLock, 2)
+	release()
+	return "", 0
+}
+
+// read transactions ------------------------------------------------------------------
+
+// WalBeginRead opens a read transaction (walTryBeginRead, simplified): READ0
+// when the log is fully backfilled, else a read mark equal to mxFrame.
+func (c *Conn) WalBeginRead() (string, syscall.Errno) {
+	w := c.wal
+	for attempt := 0; attempt < 6; attempt++ {
+		h, ok, e := c.shmReadHdr()
+		if e != 0 {
+			return "shm-read", e
+		}
+		if !ok {
+			if at, e := c.walRecover(); e != 0 {
+				return at, e
+			}
+			continue
+		}
+		if h.szPage != c.PageSize {
+			c.PageSize = h.szPage
+		}
+		ci, e := c.shmReadCkpt()
+		if e != 0 {
+			return "shm-read-ckpt", e
+		}
+		if ci.nBackfill == h.mxFrame {
+			// the database file alone is current
+			if e := c.shmLock(fuse.LockRead, walRead0, 1); e == 0 {
+				h2, ok2, _ := c.shmReadHdr()
+				if ok2 && h2 == h {
+					w.hdr, w.readLock, w.minFrame = h, 0, h.mxFrame+1
+					return "", 0
+				}
+				c.shmLock(fuse.LockUnlock, walRead0, 1)
+				continue
+			} else if e != syscall.EAGAIN {
+				return "read0-lock", e
+			}
+		}
+		// pick a read mark slot: prefer one already equal to mxFrame
+		slot := 0
+		for i := 1; i <= 4; i++ {
+			if ci.readMark[i] == h.mxFrame {
+				slot = i
+				break
+			}
+		}
+		if slot == 0 {
+			start := 1 + c.r.Tape.Next(4)
+			for k := 0; k < 4 && slot == 0; k++ {
+				i := 1 + (start-1+k)%4
+				if e := c.shmLock(fuse.LockWrite, walRead0+i, 1); e == 0 {
+					ci.readMark[i] = h.mxFrame
+					c.shmWriteCkpt(ci)
+					c.shmLock(fuse.LockUnlock, walRead0+i, 1)
+					slot = i
+				}
+			}
+		}
+		if slot == 0 {
+			// use the largest mark <= mxFrame
+			best := uint32(0)
+			for i := 1; i <= 4; i++ {
+				if ci.readMark[i] != readMarkNotUsed && ci.readMark[i] <= h.mxFrame && ci.readMark[i] >= best {
+					best, slot = ci.readMark[i], i
+				}
+			}
+			if slot == 0 {
+				return "no-read-slot", syscall.EAGAIN
+			}
+		}
+		if e := c.shmLock(fuse.LockRead, walRead0+slot, 1); e != 0 {
+			if e == syscall.EAGAIN {
+				continue
+			}
+			return "read-lock", e
+		}
+		h2, ok2, _ := c.shmReadHdr()
+		ci2, _ := c.shmReadCkpt()
+		if !ok2 || h2 != h || ci2.readMark[slot] > h.mxFrame {
+			c.shmLock(fuse.LockUnlock, walRead0+slot, 1)
+			continue
+		}
+		w.hdr, w.readLock, w.minFrame = h, slot, ci2.nBackfill+1
+		return "", 0
+	}
+	return "read-retry", syscall.EAGAIN
+}
+
+// WalEndRead releases the read lock.
+func (c *Conn) WalEndRead() {
+	if c.wal.readLock >= 0 {
+		c.shmLock(fuse.LockUnlock, walRead0+c.wal.readLock, 1)
+		c.wal.readLock = -1
+	}
+}
+
+// walIndex makes sure the frame index covers frames 1..upTo of the current log.
+func (c *Conn) walIndex(upTo uint32) syscall.Errno {
+	w := c.wal
+	if !w.idxValid || w.idxHdr != w.hdr || w.idxUpTo > upTo {
+		w.idx, w.idxUpTo, w.idxHdr, w.idxValid = map[uint32][]uint32{}, 0, w.hdr, true
+	}
+	for f := w.idxUpTo + 1; f <= upTo; f++ {
+		b, e := w.walf.Pread(c.frameOff(f), 8)
+		if e != 0 {
+			return e
+		}
+		if len(b) < 8 {
+			return syscall.EIO
+		}
+		pg := binary.BigEndian.Uint32(b)
+		w.idx[pg] = append(w.idx[pg], f)
+	}
+	w.idxUpTo = upTo
+	return 0
+}
+
+// walFindFrame returns the newest frame for a page within the snapshot, or 0.
+func (c *Conn) walFindFrame(pg uint32) uint32 {
+	w := c.wal
+	fs := w.idx[pg]
+	for i := len(fs) - 1; i >= 0; i-- {
+		if fs[i] <= w.hdr.mxFrame && fs[i] >= w.minFrame {
+			return fs[i]
+		}
+	}
+	return 0
+}
+
+// WalReadPage reads a page within the open read transaction.
+func (c *Conn) WalReadPage(pg uint32) ([]byte, syscall.Errno) {
+	if f := c.walFindFrame(pg); f != 0 {
+		b, e := c.wal.walf.Pread(c.frameOff(f)+24, int(c.PageSize))
+		if e != 0 {
+			return nil, e
+		}
+		if len(b) < int(c.PageSize) {
+			b = append(b, make([]byte, int(c.PageSize)-len(b))...)
+		}
+		return b, 0
+	}
+	return c.ReadPage(pg)
+}
+
+// WalReadImageLocked reads the whole database inside the open read transaction.
+func (c *Conn) WalReadImageLocked() (*Image, syscall.Errno) {
+	w := c.wal
+	if e := c.walIndex(w.hdr.mxFrame); e != 0 {
+		return nil, e
+	}
+	if w.hdr.nPage == 0 {
+		return nil, 0
+	}
+	im := &Image{PageSize: c.PageSize}
+	for pg := uint32(1); pg <= w.hdr.nPage; pg++ {
+		p, e := c.WalReadPage(pg)
+		if e != 0 {
+			return nil, e
+		}
+		im.Pages = append(im.Pages, p)
+	}
+	return im, 0
+}
+
+// WalReadTx is a complete read transaction returning the image it saw.
+func (c *Conn) WalReadTx() (*Image, syscall.Errno) {
+	if _, e := c.WalBeginRead(); e != 0 {
+		return nil, e
+	}
+	im, e := c.WalReadImageLocked()
+	c.WalEndRead()
+	return im, e
+}
+
+// write transactions ------------------------------------------------------------------
+
+// WalTxProgram is a WAL-mode write transaction.
+type WalTxProgram struct {
+	Modify   []uint32
+	NewSize  uint32
+	Repeat   []uint32 // pages written twice (a cache spill wrote an earlier version)
+	Outcome  string   // commit / rollback (frames written, no commit mark) / lockonly
+	SplitHdr bool     // write the frame header in two pieces
+	NoFsync  bool
+}
+
+// walRestartHdr is walRestartHdr(): bump salt1, new salt2, empty log.
+func (c *Conn) walRestartHdr(salt2 uint32) syscall.Errno {
+	w := c.wal
+	w.nCkpt++
+	w.hdr.mxFrame = 0
+	w.hdr.salt[0]++
+	w.hdr.salt[1] = salt2
+	w.hdr.iChange++
+	if e := c.shmWriteHdr(w.hdr); e != 0 {
+		return e
+	}
+	ci := ckptInfo{readMark: [5]uint32{0, 0, readMarkNotUsed, readMarkNotUsed, readMarkNotUsed}}
+	w.idxValid = false
+	return c.shmWriteCkpt(ci)
+}
+
+// WalBeginWrite upgrades the open read transaction to a write transaction.
+func (c *Conn) WalBeginWrite() (string, syscall.Errno) {
+	w := c.wal
+	if e := c.shmLock(fuse.LockWrite, walWriteLock, 1); e != 0 {
+		return "write-lock", e
+	}
+	w.write = true
+	h, ok, e := c.shmReadHdr()
+	if e != 0 || !ok || h != w.hdr {
+		// snapshot is stale: SQLITE_BUSY_SNAPSHOT
+		c.WalEndWrite()
+		if e == 0 {
+			e = syscall.EAGAIN
+		}
+		return "busy-snapshot", e
+	}
+	return "", 0
+}
+
+// WalEndWrite releases WRITE (this is where LiteFS captures the transaction).
+func (c *Conn) WalEndWrite() syscall.Errno {
+	w := c.wal
+	if !w.write {
+		return 0
+	}
+	w.write = false
+	return c.shmLock(fuse.LockUnlock, walWriteLock, 1)
+}
+
+// walRestartLog is walRestartLog(): called at the start of writing frames.
+func (c *Conn) walRestartLog() (string, syscall.Errno) {
+	w := c.wal
+	if w.readLock != 0 {
+		return "", 0
+	}
+	ci, e := c.shmReadCkpt()
+	if e != 0 {
+		return "shm-read-ckpt", e
+	}
+	if ci.nBackfill > 0 {
+		if e := c.shmLock(fuse.LockWrite, walRead0+1, 4); e == 0 {
+			c.r.Count("wal.restart")
+			if e := c.walRestartHdr(uint32(c.r.Tape.Next(1 << 30))); e != 0 {
+				return "restart-hdr", e
+			}
+			c.shmLock(fuse.LockUnlock, walRead0+1, 4)
+		} else if e != syscall.EAGAIN {
+			return "restart-lock", e
+		}
+	}
+	c.shmLock(fuse.LockUnlock, walRead0, 1)
+	w.readLock = -1
+	if at, e := c.WalBeginRead(); e != 0 {
+		return at, e
+	}
+	return "", 0
+}
+
+// WalWriteTx runs one WAL write transaction. ref is the committed image.
+func (c *Conn) WalWriteTx(prog WalTxProgram, ref *Image) TxResult {
+	c.txSeq++
+	tx := c.txSeq
+	w := c.wal
+	fail := func(at string, e syscall.Errno) TxResult {
+		out := "error"
+		if e == syscall.EAGAIN {
+			out = "busy"
+		}
+		if w.write {
+			c.WalEndWrite()
+		}
+		c.WalEndRead()
+		return TxResult{Outcome: out, Errno: e, FailedAt: at}
+	}
+	if at, e := c.WalBeginRead(); e != 0 {
+		return fail(at, e)
+	}
+	if at, e := c.WalBeginWrite(); e != 0 {
+		return fail(at, e)
+	}
+	if prog.Outcome == OutLockOnly {
+		c.WalEndWrite()
+		c.WalEndRead()
+		return TxResult{Outcome: OutLockOnly}
+	}
+	if e := c.walIndex(w.hdr.mxFrame); e != 0 {
+		return fail("wal-index", e)
+	}
+	// current header of page 1 (for the change counter)
+	p1, e := c.WalReadPage(1)
+	if e != 0 {
+		return fail("read-page1", e)
+	}
+	hdr, _, _ := decodeDBHeader(p1)
+	origSize := ref.N()
+
+	newIm := ref.Clone()
+	if newIm == nil {
+		newIm = &Image{PageSize: c.PageSize}
+	}
+	newIm.PageSize = c.PageSize
+	newHdr := DBHeader{WAL: true, ChangeCounter: hdr.ChangeCounter + 1, SizePages: prog.NewSize, SchemaCookie: hdr.SchemaCookie}
+	mod := map[uint32]bool{1: true}
+	for _, p := range prog.Modify {
+		if p >= 1 && p <= origSize && p <= prog.NewSize {
+			mod[p] = true
+		}
+	}
+	for uint32(len(newIm.Pages)) < prog.NewSize {
+		newIm.Pages = append(newIm.Pages, nil)
+	}
+	newIm.Pages = newIm.Pages[:prog.NewSize]
+	lock := LockPgno(c.PageSize)
+	var dirty []uint32
+	for pg := uint32(1); pg <= prog.NewSize; pg++ {
+		if pg == lock {
+			newIm.Pages[pg-1] = make([]byte, c.PageSize)
+			continue
+		}
+		if mod[pg] || pg > origSize {
+			newIm.Pages[pg-1] = MakePage(c.PageSize, c.ID, tx, pg, uint32(c.n.ID), &newHdr)
+			dirty = append(dirty, pg)
+		}
+	}
+	sort.Slice(dirty, func(a, b int) bool { return dirty[a] < dirty[b] })
+
+	// frame sequence: earlier (spilled) versions of repeated pages first
+	type frame struct {
+		pg   uint32
+		data []byte
+	}
+	var frames []frame
+	isDirty := map[uint32]bool{}
+	for _, pg := range dirty {
+		isDirty[pg] = true
+	}
+	for _, pg := range prog.Repeat {
+		if isDirty[pg] && pg != 1 {
+			old := MakePage(c.PageSize, c.ID, tx, pg, 7777, &newHdr)
+			frames = append(frames, frame{pg, old})
+			c.r.Count("wal.repeat-page")
+		}
+	}
+	for _, pg := range dirty {
+		frames = append(frames, frame{pg, newIm.Pages[pg-1]})
+	}
+
+	if at, e := c.walRestartLog(); e != 0 {
+		return fail(at, e)
+	}
+	iFrame := w.hdr.mxFrame
+	ck := w.hdr.frameCksum
+	big := w.hdr.bigEnd
+	if iFrame == 0 {
+		// new log generation: write the 32-byte header
+		big = w.bigEnd
+		wh := make([]byte, 32)
+		magic := uint32(0x377f0682)
+		if big {
+			magic = 0x377f0683
+		}
+		binary.BigEndian.PutUint32(wh[0:], magic)
+		binary.BigEndian.PutUint32(wh[4:], 3007000)
+		binary.BigEndian.PutUint32(wh[8:], c.PageSize)
+		binary.BigEndian.PutUint32(wh[12:], w.nCkpt)
+		if w.nCkpt == 0 {
+			w.hdr.salt = [2]uint32{uint32(c.r.Tape.Next(1<<30)) + 1, uint32(c.r.Tape.Next(1 << 30))}
+		}
+		binary.BigEndian.PutUint32(wh[16:], w.hdr.salt[0])
+		binary.BigEndian.PutUint32(wh[20:], w.hdr.salt[1])
+		c0, c1 := walCksum(big, 0, 0, wh[:24])
+		binary.BigEndian.PutUint32(wh[24:], c0)
+		binary.BigEndian.PutUint32(wh[28:], c1)
+		ck = [2]uint32{c0, c1}
+		w.hdr.bigEnd = big
+		if e := w.walf.Pwrite(0, wh); e != 0 {
+			return fail("wal-header", e)
+		}
+		if !prog.NoFsync {
+			if e := w.walf.Fsync(); e != 0 {
+				return fail("wal-header-fsync", e)
+			}
+		}
+		w.idxValid = false
+		c.r.Count("wal.new-log")
+	}
+	commit := prog.Outcome == OutCommit
+	firstFrame := iFrame + 1
+	for i, fr := range frames {
+		iFrame++
+		fh := make([]byte, 24)
+		binary.BigEndian.PutUint32(fh[0:], fr.pg)
+		if commit && i == len(frames)-1 {
+			binary.BigEndian.PutUint32(fh[4:], prog.NewSize)
+		}
+		binary.BigEndian.PutUint32(fh[8:], w.hdr.salt[0])
+		binary.BigEndian.PutUint32(fh[12:], w.hdr.salt[1])
+		c0, c1 := walCksum(big, ck[0], ck[1], fh[:8])
+		c0, c1 = walCksum(big, c0, c1, fr.data)
+		ck = [2]uint32{c0, c1}
+		binary.BigEndian.PutUint32(fh[16:], c0)
+		binary.BigEndian.PutUint32(fh[20:], c1)
+		off := c.frameOff(iFrame)
+		if prog.SplitHdr {
+			if e := w.walf.Pwrite(off, fh[:8]); e != 0 {
+				return fail("wal-frame-hdr", e)
+			}
+			if e := w.walf.Pwrite(off+8, fh[8:]); e != 0 {
+				return fail("wal-frame-hdr", e)
+			}
+		} else if e := w.walf.Pwrite(off, fh); e != 0 {
+			return fail("wal-frame-hdr", e)
+		}
+		if e := w.walf.Pwrite(off+24, fr.data); e != 0 {
+			return fail("wal-frame-data", e)
+		}
+	}
+	if !commit {
+		// ROLLBACK after spilling frames: the wal-index is left alone
+		c.r.Count("wal.rollback-frames")
+		c.WalEndWrite()
+		c.WalEndRead()
+		w.idxValid = false
+		return TxResult{Outcome: OutRollback}
+	}
+	if !prog.NoFsync {
+		if e := w.walf.Fsync(); e != 0 {
+			return fail("wal-fsync", e)
+		}
+	}
+	// publish: update the wal-index header
+	w.hdr.mxFrame = iFrame
+	w.hdr.nPage = prog.NewSize
+	w.hdr.frameCksum = ck
+	w.hdr.iChange++
+	w.hdr.szPage = c.PageSize
+	w.hdr.isInit, w.hdr.iVersion = true, 3007000
+	if e := c.shmWriteHdr(w.hdr); e != 0 {
+		return fail("shm-publish", e)
+	}
+	w.idxValid = false
+	// COMMIT returns after the write lock is released.
+	if e := c.WalEndWrite(); e != 0 {
+		c.WalEndRead()
+		return TxResult{Outcome: "error", Errno: e, FailedAt: "write-unlock", After: newIm}
+	}
+	c.WalEndRead()
+	return TxResult{Outcome: OutCommit, After: newIm, WalFirstFrame: firstFrame, WalFrames: len(frames), WalSalt: w.hdr.salt}
+}
+
+// checkpoints ------------------------------------------------------------------
+
+// backfill copies the newest frame <= upTo of every page into the database
+// file, in page order (walCheckpoint's loop).
+func (c *Conn) backfill(h walHdr, upTo, from uint32) (string, syscall.Errno) {
+	w := c.wal
+	w.hdr = h
+	w.minFrame = 1
+	if e := c.walIndex(upTo); e != 0 {
+		return "ckpt-index", e
+	}
+	var pgs []uint32
+	for pg, fs := range w.idx {
+		for i := len(fs) - 1; i >= 0; i-- {
+			if fs[i] <= upTo && fs[i] > from && pg <= h.nPage {
+				pgs = append(pgs, pg)
+				break
+			}
+		}
+	}
+	sort.Slice(pgs, func(a, b int) bool { return pgs[a] < pgs[b] })
+	for _, pg := range pgs {
+		fs := w.idx[pg]
+		var f uint32
+		for i := len(fs) - 1; i >= 0; i-- {
+			if fs[i] <= upTo {
+				f = fs[i]
+				break
+			}
+		}
+		b, e := w.walf.Pread(c.frameOff(f)+24, int(c.PageSize))
+		if e != 0 {
+			return "ckpt-read", e
+		}
+		if e := c.dbf.Pwrite(int64(pg-1)*int64(c.PageSize), b); e != 0 {
+			return "ckpt-db-write", e
+		}
+	}
+	return "", 0
+}
+
+// Checkpoint modes.
+const (
+	CkptPassive  = "PASSIVE"
+	CkptFull     = "FULL"
+	CkptRestart  = "RESTART"
+	CkptTruncate = "TRUNCATE"
+)
+
+// WalCheckpoint runs sqlite3WalCheckpoint in the given mode. Returns "busy"
+// outcomes as EAGAIN (a checkpoint that cannot proceed is not an error).
+func (c *Conn) WalCheckpoint(mode string) (string, syscall.Errno) {
+	w := c.wal
+	c.r.Count("wal.ckpt." + mode)
+	if e := c.shmLock(fuse.LockWrite, walCkptLock, 1); e != 0 {
+		return "ckpt-lock", e
+	}
+	defer c.shmLock(fuse.LockUnlock, walCkptLock, 1)
+	if mode != CkptPassive {
+		if e := c.shmLock(fuse.LockWrite, walWriteLock, 1); e != 0 {
+			return "ckpt-write-lock", e
+		}
+		w.write = true
+		defer c.WalEndWrite()
+	}
+	h, ok, e := c.shmReadHdr()
+	if e != 0 {
+		return "ckpt-shm-read", e
+	}
+	if !ok {
+		if at, e := c.walRecover(); e != 0 {
+			return at, e
+		}
+		h, ok, _ = c.shmReadHdr()
+		if !ok {
+			return "ckpt-recover", syscall.EIO
+		}
+	}
+	ci, e := c.shmReadCkpt()
+	if e != 0 {
+		return "ckpt-shm-read", e
+	}
+	mxSafe := h.mxFrame
+	for i := 1; i <= 4; i++ {
+		if ci.readMark[i] < mxSafe {
+			if e := c.shmLock(fuse.LockWrite, walRead0+i, 1); e == 0 {
+				if i == 1 {
+					ci.readMark[i] = mxSafe
+				} else {
+					ci.readMark[i] = readMarkNotUsed
+				}
+				c.shmWriteCkpt(ci)
+				c.shmLock(fuse.LockUnlock, walRead0+i, 1)
+			} else if e == syscall.EAGAIN {
+				mxSafe = ci.readMark[i]
+				c.r.Count("wal.ckpt.limited-by-reader")
+			} else {
+				return "ckpt-readmark-lock", e
+			}
+		}
+	}
+	if ci.nBackfill < mxSafe {
+		if e := c.shmLock(fuse.LockWrite, walRead0, 1); e == 0 {
+			if e := w.walf.Fsync(); e != 0 {
+				c.shmLock(fuse.LockUnlock, walRead0, 1)
+				return "ckpt-wal-fsync", e
+			}
+			if at, e := c.backfill(h, mxSafe, ci.nBackfill); e != 0 {
+				c.shmLock(fuse.LockUnlock, walRead0, 1)
+				return at, e
+			}
+			if mxSafe == h.mxFrame {
+				if sz, e2 := c.dbf.Size(); e2 == 0 && sz > int64(h.nPage)*int64(c.PageSize) {
+					if e := c.dbf.Truncate(int64(h.nPage) * int64(c.PageSize)); e != 0 {
+						c.shmLock(fuse.LockUnlock, walRead0, 1)
+						return "ckpt-db-truncate", e
+					}
+				}
+				if e := c.dbf.Fsync(); e != 0 {
+					c.shmLock(fuse.LockUnlock, walRead0, 1)
+					return "ckpt-db-fsync", e
+				}
+			}
+			ci.nBackfill = mxSafe
+			ci.attempted = mxSafe
+			c.shmWriteCkpt(ci)
+			c.shmLock(fuse.LockUnlock, walRead0, 1)
+			c.r.Count("wal.ckpt.backfilled")
+		} else if e != syscall.EAGAIN {
+			return "ckpt-read0-lock", e
+		}
+	}
+	if mode == CkptPassive || mode == CkptFull {
+		return "", 0
+	}
+	// RESTART / TRUNCATE need the whole log backfilled and no readers
+	ci, _ = c.shmReadCkpt()
+	if ci.nBackfill < h.mxFrame {
+		return "ckpt-busy", syscall.EAGAIN
+	}
+	if e := c.shmLock(fuse.LockWrite, walRead0+1, 4); e != 0 {
+		return "ckpt-restart-busy", e
+	}
+	w.hdr = h
+	if mode == CkptTruncate {
+		if e := c.walRestartHdr(uint32(c.r.Tape.Next(1 << 30))); e != 0 {
+			c.shmLock(fuse.LockUnlock, walRead0+1, 4)
+			return "ckpt-restart-hdr", e
+		}
+		if e := w.walf.Truncate(0); e != 0 {
+			c.shmLock(fuse.LockUnlock, walRead0+1, 4)
+			return "ckpt-wal-truncate", e
+		}
+	}
+	c.shmLock(fuse.LockUnlock, walRead0+1, 4)
+	return "", 0
+}
+
+// GenWalProgram draws a WAL transaction program from the tape.
+func GenWalProgram(t *Tape, cur uint32, maxPages uint32) WalTxProgram {
+	var p WalTxProgram
+	switch t.Pick([]int{72, 14, 14}) {
+	case 0:
+		p.Outcome = OutCommit
+	case 1:
+		p.Outcome = OutRollback
+	case 2:
+		p.Outcome = OutLockOnly
+	}
+	switch t.Pick([]int{45, 30, 18, 7}) {
+	case 0:
+		p.NewSize = cur
+	case 1:
+		p.NewSize = cur + uint32(t.Range(1, 6))
+	case 2:
+		if cur > 1 {
+			p.NewSize = cur - uint32(t.Range(1, int(min32(cur-1, 8))))
+		} else {
+			p.NewSize = cur
+		}
+	case 3:
+		targets := []uint32{255, 256, 257, 258, 511, 512, 513}
+		p.NewSize = targets[t.Next(len(targets))]
+	}
+	if p.NewSize < 1 {
+		p.NewSize = 1
+	}
+	if p.NewSize > maxPages {
+		p.NewSize = maxPages
+	}
+	if cur > 0 {
+		n := t.Range(0, 5)
+		for i := 0; i < n; i++ {
+			p.Modify = append(p.Modify, uint32(t.Range(1, int(cur))))
+		}
+		if t.Chance(1, 6) && cur > 8 {
+			start := uint32(t.Range(1, int(cur)))
+			for i := uint32(0); i < 6 && start+i <= cur; i++ {
+				p.Modify = append(p.Modify, start+i)
+			}
+		}
+		if t.Chance(1, 4) {
+			for i := 0; i < t.Range(1, 3) && len(p.Modify) > 0; i++ {
+				p.Repeat = append(p.Repeat, p.Modify[t.Next(len(p.Modify))])
+			}
+		}
+	}
+	p.SplitHdr = t.Chance(1, 8)
+	p.NoFsync = t.Chance(1, 6)
+	return p
+}
